@@ -200,7 +200,7 @@ func (e *Exec) load(st *State, pv Val, ty types.Type) Val {
 		return Val{T: t}
 	case pGlobal:
 		cur := e.heapGet(st, "G_"+p.gname, e.tm.Sort(p.gtyp))
-		if p.gNonNil && len(p.path) == 0 && cur.kind == kVar {
+		if p.gNonNil && len(p.path) == 0 && !cur.bound && cur.kind != kLit {
 			e.c.AddFact(cur, e.c.Gt(cur, e.c.Int(0)))
 			e.assumed["package-level error variables initialised with errors.New/fmt.Errorf are non-nil and never reassigned"] = true
 		}
